@@ -450,11 +450,12 @@ fn entsize_clause(ctx: &mut Ctx) {
     for (idx, kind, right) in targets {
         // sanity: with the right entsize the accessor works (so that a failure below is due to entsize)
         let works = |bytes: &[u8]| -> (bool, bool) {
+            // every slice-parser path to the table counts: the targeted accessor and the one-pass discovery
             let s = match open_slice(bytes) {
                 Ok(f) => match kind {
-                    "symtab" => matches!(f.symbol_table(), Ok(Some(_))),
-                    "dynsym" => matches!(f.dynamic_symbol_table(), Ok(Some(_))),
-                    "dynamic" => matches!(f.dynamic(), Ok(Some(_))),
+                    "symtab" => matches!(f.symbol_table(), Ok(Some(_))) || matches!(f.find_common_data(), Ok(c) if c.symtab.is_some()),
+                    "dynsym" => matches!(f.dynamic_symbol_table(), Ok(Some(_))) || matches!(f.find_common_data(), Ok(c) if c.dynsyms.is_some()),
+                    "dynamic" => matches!(f.dynamic(), Ok(Some(_))) || matches!(f.find_common_data(), Ok(c) if c.dynamic.is_some()),
                     _ => matches!(f.symbol_version_table(), Ok(Some(_))),
                 },
                 Err(_) => false,
